@@ -85,6 +85,14 @@ def gen_header(rng):
             has_q = True
             has_ws |= bool(a or b)
         parts.append(p)
+    if rng.random() < 0.06:
+        # a long header (a browser extension, a proxy or a generated client listing dozens of media types the service does
+        # not produce): the supported types somewhere among them still decide (seed C18-W: only the first N ranges read)
+        k = rng.choice([31, 32, 33, 40, 100, 250])
+        filler = [f"application/x-other{i}+zip" + rng.choice(["", ";q=0.9", ";q=1", ";q=0.2"]) for i in range(k)]
+        cut = rng.choice([0, k, k, rng.randint(0, k)])
+        parts = filler[cut:] + parts[:1] + filler[:cut] + parts[1:]
+        n += k
     out = ""
     for i, p in enumerate(parts):
         if i:
